@@ -19,7 +19,7 @@ pub enum Case {
     KxSeed { seed: Hex },
     SignSeed { seed: Hex },
     FromSecretKey { sk: Hex },
-    Derive { password: Hex, salt: Hex, ops: u64, mem: usize },
+    Derive { password: Hex, salt: Hex, ops: u64, mem: usize, #[serde(default)] cfg_hash_len: usize, #[serde(default)] cfg_salt_len: usize },
     Convert { seed: Hex, msg: Hex },
 }
 
@@ -122,8 +122,16 @@ pub fn check(c: &Case) -> Result<(), String> {
             }
             Ok(())
         }
-        Case::Derive { password, salt, ops, mem } => {
-            let cfg = Config::interactive().with_opslimit(*ops).with_memlimit(*mem);
+        Case::Derive { password, salt, ops, mem, cfg_hash_len, cfg_salt_len } => {
+            // the key pair is defined by crypto_pwhash(32 bytes) + base-point multiplication; the hash/salt lengths
+            // configured for password *hashes* must not influence it
+            let mut cfg = Config::interactive().with_opslimit(*ops).with_memlimit(*mem);
+            if *cfg_hash_len != 0 {
+                cfg = cfg.with_hash_length(*cfg_hash_len);
+            }
+            if *cfg_salt_len != 0 {
+                cfg = cfg.with_salt_length(*cfg_salt_len);
+            }
             let kp: KeyPair<StackByteArray<32>, StackByteArray<32>> =
                 PwHash::<Vec<u8>, Vec<u8>>::derive_keypair(&password.0, salt.0.clone(), cfg).map_err(|e| format!("derive_keypair: {e:?}"))?;
             let want_sk = if salt.len() == 16 {
@@ -134,7 +142,7 @@ pub fn check(c: &Case) -> Result<(), String> {
             .ok_or("harness: reference argon2 refused")?;
             let want_pk = sodium::scalarmult_base(&a32(&want_sk)?);
             if kp.secret_key.as_slice() != want_sk || kp.public_key.as_slice() != want_pk {
-                return Err(format!("PwHash::derive_keypair(ops={ops}, mem={mem}, salt len {}) differs from crypto_pwhash + crypto_scalarmult_base", salt.len()));
+                return Err(format!("PwHash::derive_keypair(ops={ops}, mem={mem}, salt len {}, config hash_length {cfg_hash_len}, salt_length {cfg_salt_len}) differs from crypto_pwhash(32) + crypto_scalarmult_base", salt.len()));
             }
             Ok(())
         }
@@ -210,7 +218,7 @@ pub fn run(ctx: &mut Ctx) -> Result<(), Violation> {
         let mut f = Fill::new(seed, &format!("C13:derive:{i}"));
         let saltlen = if i % 3 == 0 { 16 } else { 8 + i % 25 };
         let pwl = f.below(64) as usize;
-        cases.push(Case::Derive { password: Hex(f.bytes(pwl)), salt: Hex(f.bytes(saltlen)), ops: 1 + (i % 3) as u64, mem: 8192 + 1024 * (i % 57) + [0, 1, 512, 1023][i % 4] });
+        cases.push(Case::Derive { password: Hex(f.bytes(pwl)), salt: Hex(f.bytes(saltlen)), ops: 1 + (i % 3) as u64, mem: 8192 + 1024 * (i % 57) + [0, 1, 512, 1023][i % 4], cfg_hash_len: [0usize, 32, 16, 33, 64, 128, 31][i % 7], cfg_salt_len: [0usize, 16, 8, 24, 64][i % 5] });
     }
     ctx.par_each(&cases, |_, c, ev| {
         ev.eval(1);
